@@ -484,7 +484,7 @@ def check_history(ctx, c):
             dim_changed = True
         if op == "integral_scale":
             got_is = float(model.integral_scale)
-            if abs(got_is - desc[1]) > 2e-3 * desc[1]:
+            if not abs(got_is - desc[1]) <= 2e-3 * desc[1]:
                 ctx.fail({"what": "integral_scale-setter", "model": name}, f"requested {desc[1]}, model reports {got_is}")
                 return
             sh.len_scale = float(model.len_scale)
